@@ -240,9 +240,25 @@ func (w *lblWorld) invalidate(labels []string, failAt int, trace bool) error {
 		}
 	}
 
+	mergeDuring := func() {
+		// labels added while the call was running are indexed from now on
+		for _, op := range w.during {
+			for _, l := range op.labels {
+				if w.current[op.name][l] == nil {
+					w.current[op.name][l] = map[string]bool{}
+				}
+
+				w.current[op.name][l][op.key] = true
+			}
+		}
+
+		w.during = nil
+	}
+
 	failed := failAt >= 0 && failAt < w.calls
 	if failed {
 		c.Assert(errors.Is(err, w.injErr), "error-not-returned", "deleter failed but InvalidateByLabels returned (%d, %v)", cnt, err)
+		mergeDuring()
 
 		return err
 	}
@@ -270,18 +286,7 @@ func (w *lblWorld) invalidate(labels []string, failAt int, trace bool) error {
 		}
 	}
 
-	// labels added while the call was running are indexed from now on
-	for _, op := range w.during {
-		for _, l := range op.labels {
-			if w.current[op.name][l] == nil {
-				w.current[op.name][l] = map[string]bool{}
-			}
-
-			w.current[op.name][l][op.key] = true
-		}
-	}
-
-	w.during = nil
+	mergeDuring()
 
 	return nil
 }
@@ -432,10 +437,8 @@ func propLabels(c *Case) {
 			inj.labels = append(inj.labels, lblLabels[c.Pick("inject.label2", len(lblLabels))])
 		}
 
-		for p := 0; p < issued; p++ {
-			w := newLblWorld(c, st)
-			w.injectAt = p
-			w.inject = func() {
+		mkInject := func(w *lblWorld) func() {
+			return func() {
 				k, poison := poisonKey([]byte(inj.key))
 				w.idx.AddLabels(lblNames[inj.name], k, inj.labels...)
 				poison()
@@ -452,11 +455,33 @@ func propLabels(c *Case) {
 
 				w.inject = nil
 			}
+		}
+
+		combos := 0
+
+		for p := 0; p < issued; p++ {
+			w := newLblWorld(c, st)
+			w.injectAt = p
+			w.inject = mkInject(w)
 			w.run(-1, false)
 
 			// everything labelled before or during the first call is gone after a second call
 			err := w.invalidate(append(append([]string{}, st.final...), inj.labels...), -1, false)
 			c.Assert(err == nil, "unexpected-error", "second invalidation returned %v", err)
+
+			// the same with a later deleter failing: the key labelled during the failed call must stay
+			// indexed like every other unprocessed key, so that retries remove it
+			for f := p + 1; f < issued && combos < 60; f++ {
+				combos++
+
+				w := newLblWorld(c, st)
+				w.injectAt = p
+				w.inject = mkInject(w)
+				w.run(f, false)
+
+				err := w.invalidate(append(append([]string{}, st.final...), inj.labels...), -1, false)
+				c.Assert(err == nil, "unexpected-error", "invalidation after recovery returned %v", err)
+			}
 		}
 
 		c.Class("reentrant-addlabels-enumerated")
